@@ -179,6 +179,60 @@ class UMap(_Rec, cabc.Mapping):
         return f'UMap({self._d!r})'
 
 
+class UPatchSeq(cabc.Sequence):
+    """A read-only Sequence by inheritance that nevertheless defines the three abstract mutators of
+    MutableSequence (item assignment / deletion / insert) without being one."""
+
+    def __init__(self, items=()):
+        self._i = items if type(items) is list or isinstance(items, list) else list(items)
+
+    def __len__(self):
+        return len(self._i)
+
+    def __getitem__(self, k):
+        return self._i[k]
+
+    def __setitem__(self, k, v):
+        self._i[k] = v
+
+    def __delitem__(self, k):
+        del self._i[k]
+
+    def insert(self, k, v):
+        self._i.insert(k, v)
+
+    def __repr__(self):
+        return f'UPatchSeq({self._i!r})'
+
+
+class UPatchMap(cabc.Mapping):
+    """A Mapping by inheritance defining __ne__ and the two abstract mutators of MutableMapping."""
+
+    def __init__(self, pairs=()):
+        self._d = pairs if isinstance(pairs, dict) else dict(pairs)
+
+    def __len__(self):
+        return len(self._d)
+
+    def __getitem__(self, k):
+        return self._d[k]
+
+    def __iter__(self):
+        return iter(self._d)
+
+    def __ne__(self, other):
+        return not (self == other)
+
+    def __setitem__(self, k, v):
+        self._d[k] = v
+
+    def __delitem__(self, k):
+        del self._d[k]
+
+    def __repr__(self):
+        return f'UPatchMap({self._d!r})'
+
+
 class UIterable:
     """Iterable that is *not* a Collection (no __len__/__contains__); counts iteration."""
 
